@@ -88,3 +88,20 @@ Definition edge_eqb (a b : Z * Z * bool) : bool :=
 Definition mesh_eqb (a b : mesh) : bool :=
   setZ_eqb (vids a) (vids b) && amap_eqb listZ_eqb [] (ownE a) (ownE b) && amap_eqb listZ_eqb [] (ownC a) (ownC b) &&
   amap_eqb edge_eqb (0, 0, false) (medges a) (medges b) && amap_eqb listZ_eqb [] (mcells a) (mcells b).
+
+(* ------------------------------------------------------------------ grouping of the artefact vertices (skeleton.py:157-175, 193-209)
+   add_vertices_to_current is called once per artefact (the while loop's guard is refreshed after the call): an artefact is its first vertex
+   followed by those of its neighbours - in the order of its ownEdges - that are artefact vertices *)
+Definition other_end (m : mesh) (e v : Z) : Z :=
+  let '(a, b, _) := aget (0, 0, false) e (medges m) in if Z.eqb a v then b else a.
+Definition grow (m : mesh) (all cur : list Z) : list Z :=
+  let v0 := last cur 0 in
+  fold_left (fun cur e => let w := other_end m e v0 in if memZ w all && negb (memZ w cur) then cur ++ [w] else cur) (aget [] v0 (ownE m)) cur.
+Fixpoint group (fuel : nat) (m : mesh) (all : list Z) : list (list Z) :=
+  match fuel, all with
+  | S f, a :: _ => let cur := grow m all [a] in cur :: group f m (fold_left (fun l x => remove1 x l) cur all)
+  | _, _ => []
+  end.
+Definition artefacts (m : mesh) : list (list Z) := let all := get_artifacts m in group (length all) m all.
+(* the whole pass: every artefact contracted in turn *)
+Definition clean_up (m : mesh) : mesh := fold_left t3 (artefacts m) m.
